@@ -212,6 +212,32 @@ fn class_defect(doc: &Doc) -> &'static str {
 }
 
 /// Checks one edit list against the document. `target` = module the edit claims to import from.
+/// The modules from which the edited document imports `Foo` although the original did not.
+fn modules_foo_is_newly_imported_from(doc: &Doc, edits: &[(Location, String)]) -> Vec<String> {
+  let Ok(new_text) = synt::apply_edits(&doc.text, edits) else { return vec![] };
+  let foo_imports = |text: &str| -> Vec<String> {
+    let mut heap = Heap::new();
+    let mref = mod_ref(&mut heap, "Main");
+    let mut es = ErrorSet::new();
+    let m = samlang_parser::parse_source_module_from_text(text, mref, &mut heap, &mut es);
+    let mut v: Vec<String> = m
+      .imports
+      .iter()
+      .filter(|i| i.imported_members.iter().any(|id| id.name.as_str(&heap) == "Foo"))
+      .map(|i| i.imported_module.pretty_print(&heap))
+      .collect();
+    v.sort();
+    v
+  };
+  let mut after = foo_imports(&new_text);
+  for m in foo_imports(&doc.text) {
+    if let Some(i) = after.iter().position(|x| *x == m) {
+      after.remove(i);
+    }
+  }
+  after
+}
+
 fn check_edits(
   w: &World,
   doc: &Doc,
@@ -383,7 +409,16 @@ fn main() {
             found.push((sig, msg, format!("code_actions at {}:{} ({title})", p.0, p.1)));
           }
         }
+        // one completion item is offered per exporting module: taken together, the `Foo` items that
+        // carry edits must import Foo from every exporter exactly once
+        let mut foo_items_import_from: Vec<String> = vec![];
+        let mut foo_items_with_edits = 0;
+        let mut foo_item_failed = false;
         for item in completion::auto_complete(&w.state, &w.main, p) {
+          if item.label == "Foo" && !item.additional_edits.is_empty() {
+            foo_items_with_edits += 1;
+            foo_items_import_from.extend(modules_foo_is_newly_imported_from(doc, &item.additional_edits));
+          }
           if (item.label == "Helper" || item.label == "Loc") && !item.additional_edits.is_empty() {
             // a class that the document itself declares needs no import at all
             completions_checked.fetch_add(1, Ordering::Relaxed);
@@ -402,8 +437,28 @@ fn main() {
               }
             }
             if let Some((sig, msg)) = res {
+              foo_item_failed = true;
               found.push((sig, msg, format!("auto_complete at {}:{}", p.0, p.1)));
             }
+          }
+        }
+        // (only where each item on its own applied cleanly: otherwise that failure is the report)
+        if foo_items_with_edits > 0 && !foo_item_failed {
+          let mut exporters: Vec<String> = w
+            .state
+            .string_sources
+            .iter()
+            .filter(|(m, t)| **m != w.main && (t.contains("class Foo ") || t.contains("class Foo(")))
+            .map(|(m, _)| m.pretty_print(&w.state.heap))
+            .collect();
+          exporters.sort();
+          foo_items_import_from.sort();
+          if foo_items_import_from != exporters {
+            found.push((
+              format!("completion-items-vs-exporters:{}", class_defect(doc)),
+              format!("the {foo_items_with_edits} `Foo` completion items import Foo from {foo_items_import_from:?}, the modules exporting Foo are {exporters:?}"),
+              format!("auto_complete at {}:{}", p.0, p.1),
+            ));
           }
         }
       }
